@@ -120,6 +120,15 @@ def check(prop, tier, seed):
     modname = 'vfw.harness.%s' % prop.lower()
     mod = importlib.import_module(modname)
     plan = mod.plan(tier, seed)
+    only = os.environ.get('VF_ONLY')
+    if only:
+        # development aid: run the slices/lemmas whose id matches; evidence must then be redirected (a partial run is no evidence)
+        import re as _re
+        if not os.environ.get('VF_EVIDENCE_DIR'):
+            print('VF_ONLY needs VF_EVIDENCE_DIR (partial runs do not write the registered evidence)')
+            return 3
+        plan['slices'] = [s for s in plan.get('slices', []) if _re.search(only, s['id'])]
+        plan['lemmas'] = [j for j in plan.get('lemmas', []) if _re.search(only, j.get('name', ''))]
     scratch = tempfile.mkdtemp(prefix='vf_%s_' % prop)
     os.makedirs(REPLAY_DIR, exist_ok=True)
     ev_path = os.path.join(EVIDENCE_DIR, '%s.json' % prop)
